@@ -278,22 +278,31 @@ func vLemmaCommitReadFrom(src io.Reader) {
 //
 //@ loop target=commit.(*Log).Range index=0 props=C13
 func vLoopLogRange(l *Log) {
-	vInvariant(!vReadFailed && (!vStopOnFirst || vDelivered == 0))
+	vInvariant(!vReadFailed && (!vStopOnFirst || vDelivered == 0) && vRangeDepth == 0)
+	d0, e0 := vKeepInt(vDelivered), vKeepInt(vTopElems)
 	vBody()
+	// a delivered commit carries exactly the buffers that were read for it (none left over from an earlier commit)
+	vStep("delivered-commit-holds-exactly-its-own-buffers", vDelivered == d0 || (vDelivered == d0+1 && vDeliveredBuffers == vTopElems-e0))
 }
+
+func vKeepInt(x int) int { return x }
+
+var vDeliveredBuffers int // ghost: number of update buffers of the last delivered commit
 
 var vDelivered int    // ghost: commits handed to the callback
 var vStopOnFirst bool // ghost: the callback of the lemma returns an error
 
-//@ lemma props=C13
+//@ lemma props=C13,C05,C06
 func vLemmaLogRange(l *Log, cbErr error) {
 	vAssume(l != nil && vReadErr != nil && io.EOF != nil)
 	vReadFailed = false
-	vDelivered = 0
+	vDelivered, vRangeDepth, vTopElems = 0, 0, 0
 	vStopOnFirst = cbErr != nil
 	err := l.Range(func(c Commit) error {
 		vAssert("only-complete-commits-are-delivered", !vReadFailed)
+		vAssume(vDelivered < 1<<40) // (a counter)
 		vDelivered++
+		vDeliveredBuffers = len(c.Updates)
 		return cbErr
 	})
 	vAssert("nil-only-at-clean-end-of-stream", err != nil || (vReadFailed && vReadErr == io.EOF))
@@ -454,7 +463,7 @@ func vSwapSetup(buf []byte, hdrs []header, x0, x1 uint32, head, i0, i1 int, at i
 
 // what SwapBytes does to the bytes that were there, and to the reader: the same-length case ...
 //
-//@ lemma props=C01,C06,C09,C19
+//@ lemma props=C01,C05,C06,C09,C19 mode=paths
 func vLemmaSwapBytesInPlace(buf []byte, hdrs []header, x0, x1 uint32, head, i0, i1 int, at int32, w0 []byte, m uint16, last2 int32, chunk2 Chunk) {
 	b, r, w := vSwapSetup(buf, hdrs, x0, x1, head, i0, i1, at, w0, m, last2, chunk2)
 	vAssume(len(w) == i1-i0)
@@ -464,15 +473,15 @@ func vLemmaSwapBytesInPlace(buf []byte, hdrs []header, x0, x1 uint32, head, i0, 
 	hb := int(x0) + head
 	vAssert("reader-stays-on-its-window", r.last == i1 && len(r.buffer) == int(x1-x0) && (x1 == x0 || &r.buffer[0] == &b.buffer[x0]))
 	vAssert("rewritten-in-place-as-put", OpType(b.buffer[hb]&0x0f) == Put && b.buffer[hb]&0xf0 == old[hb]&0xf0 && len(b.buffer) == oldLen)
+	vAssert("bytes-before-the-header-kept", vForall(0, hb, func(i int) bool { return b.buffer[i] == old[i] }))
+	vAssert("bytes-between-header-and-value-kept", vForall(hb+1, int(x0)+i0, func(i int) bool { return b.buffer[i] == old[i] }))
+	vAssert("bytes-after-the-value-kept", vForall(int(x0)+i1, oldLen, func(i int) bool { return b.buffer[i] == old[i] }))
 	vAssert("value-replaced", vForall(0, len(w), func(i int) bool { return b.buffer[int(x0)+i0+i] == w[i] }))
-	vAssert("other-bytes-kept", vForall(0, oldLen, func(i int) bool {
-		return i == hb || (int(x0)+i0 <= i && i < int(x0)+i1) || b.buffer[i] == old[i]
-	}))
 }
 
 // ... and the size-changing case
 //
-//@ lemma props=C01,C06,C09,C19
+//@ lemma props=C01,C05,C06,C09,C19 mode=paths
 func vLemmaSwapBytesSkips(buf []byte, hdrs []header, x0, x1 uint32, head, i0, i1 int, at int32, w0 []byte, m uint16, last2 int32, chunk2 Chunk) {
 	b, r, w := vSwapSetup(buf, hdrs, x0, x1, head, i0, i1, at, w0, m, last2, chunk2)
 	vAssume(len(w) != i1-i0)
@@ -487,7 +496,7 @@ func vLemmaSwapBytesSkips(buf []byte, hdrs []header, x0, x1 uint32, head, i0, i1
 
 // what a size-changing SwapBytes appends: a store of the value at the same row, in a run of the row's block
 //
-//@ lemma props=C01,C06,C09,C19
+//@ lemma props=C01,C05,C06,C09,C19 mode=paths
 func vLemmaSwapBytesAppends(buf []byte, hdrs []header, x0, x1 uint32, head, i0, i1 int, at int32, w0 []byte, m uint16, last2 int32, chunk2 Chunk) {
 	b, r, w := vSwapSetup(buf, hdrs, x0, x1, head, i0, i1, at, w0, m, last2, chunk2)
 	idx := uint32(at)
